@@ -624,6 +624,10 @@ func (r *chunkReader) Read(data []byte) (int, error) {
 	if r.lastChunk && r.rdr == nil {
 		return 0, io.EOF
 	}
+	if r.idx >= len(r.keys) {
+		// nothing (left) to read: an object with no leaf is empty
+		return 0, io.EOF
+	}
 	for {
 		key := r.keys[r.idx]
 		if r.rdr == nil {
